@@ -429,7 +429,9 @@ sys_prop(
     ["C06_loads_leave_reloader_state", "C06_reload_id_moves_only_in_a_pass", "C06_reload_bumps_id_by_one",
      "C06_each_affected_asset_once", "C06_watcher_reports_growth_once",
      "C06_value_read_after_a_reported_reload_is_as_new", "C06_code_forgets_dropped_dependencies", "C06_code_visits_each_asset_once"],
-    ["Entry", "CallGraph", "Deps", "Private"], [], mode="hot", extra_engines=[("rwdiff", [])])
+    ["Entry", "CallGraph", "Deps", "Private"],
+    ["watcher", "guard-not-pinned", "changed-outside-hot_reload", "hot_reload-returned-early", "stale-after-pass"],
+    mode="hot", extra_engines=[("rwdiff", [])])
 
 sys_prop(
     "C09",
